@@ -1,6 +1,6 @@
 #!/venv/bin/python
 """Flow obligation C02.data.from_series.daily.DailyBaselineData (engine B) failed; a static may-analysis gives no input.
-write to the caller's object: [attr-store@opendsm/eemeter/models/daily/data.py::_DailyData.from_series:109 on ['param:temperature_data'], attr-store@opendsm/eemeter/common/data_processor_utilities.py::compute_minimum_granularity:353 on ['param:meter_data']]
+write to the caller's object: [attr-store@opendsm/eemeter/models/daily/data.py::_DailyData.from_series:109 on ['param:temperature_data'], attr-store@opendsm/eemeter/common/data_processor_utilities.py::compute_minimum_granularity:356 on ['param:meter_data']]
 """
-print("write to the caller's object: [attr-store@opendsm/eemeter/models/daily/data.py::_DailyData.from_series:109 on ['param:temperature_data'], attr-store@opendsm/eemeter/common/data_processor_utilities.py::compute_minimum_granularity:353 on ['param:meter_data']]")
+print("write to the caller's object: [attr-store@opendsm/eemeter/models/daily/data.py::_DailyData.from_series:109 on ['param:temperature_data'], attr-store@opendsm/eemeter/common/data_processor_utilities.py::compute_minimum_granularity:356 on ['param:meter_data']]")
 import sys; sys.exit(1)
